@@ -6,6 +6,9 @@
 import GocoinV.Model.Addr
 import GocoinV.Proofs.C15Base58
 import GocoinV.Proofs.C15Bech32d
+import GocoinV.Proofs.C15Segwit
+import GocoinV.Proofs.C15SegwitInv
+import GocoinV.Proofs.C15Fits
 namespace GocoinV.Props.C15
 open GocoinV Bech32
 
@@ -115,5 +118,94 @@ theorem bech32_decode_encode (hrp data s : Bytes) (m : Bool) (hne : hrp ≠ [])
 
 /-- non-vacuity: the encoder does produce something for a usual input -/
 example : (Bech32.encode [98, 99] [0, 14, 20, 15] false).isSome = true := by decide +kernel
+
+/-- `convert_bits` round trip (the regrouping used by SegwitEncode / SegwitDecode), for EVERY byte string:
+    if regrouping `prog` from 8-bit to 5-bit groups with padding gives `d`, then regrouping `d` from 5-bit
+    to 8-bit groups without padding succeeds and gives back `prog`. The model's accumulator is the same
+    wrapping 32-bit value as in the Go code (Proofs/C15Conv.lean shows it agrees with the unbounded
+    positional value on every bit that is ever read). -/
+theorem convertBits_roundtrip (prog d : Bytes) (h : convertBits 5 prog 8 true = some d) :
+    convertBits 8 d 5 false = some prog :=
+  Bech32.convertBits_roundtrip prog d h
+
+/-- non-vacuity: the 8→5 direction with padding always produces a result -/
+example (prog : Bytes) : ∃ d, convertBits 5 prog 8 true = some d := Bech32.convertBits_85_total prog
+
+/-- What the 8→5 regrouping produces: every output symbol is a 5-bit value (so `Encode` never refuses it),
+    the number `p` of padding bits is below 5, and the output read as a base-32 number equals the input
+    read as a base-256 number shifted left by `p` — i.e. the padding bits are zero. These are exactly the
+    two padding conditions `SegwitDecode` tests (leftover bits < 5, leftover bits all zero). -/
+theorem convertBits_pad_facts (prog d : Bytes) (h : convertBits 5 prog 8 true = some d) :
+    (∀ x ∈ d, x.toNat < 2 ^ 5) ∧ ∃ p, p < 5 ∧ 5 * d.length = 8 * prog.length + p ∧
+      Vr 5 d.reverse = Vr 8 prog.reverse * 2 ^ p :=
+  Bech32.convertBits_85_spec prog d h
+
+/-- non-vacuity of `convertBits_pad_facts` on a 3-byte input -/
+example : convertBits 5 [0xff, 0x00, 0x81] 8 true = some [31, 28, 0, 8, 2] := by decide +kernel
+
+/-- Segwit address round trip, encode then decode, for EVERY non-empty human-readable part (in particular
+    "bc" and "tb"), every witness version and every program: whenever `SegwitEncode` produces a string
+    (it does so exactly for version ≤ 16, program length 2..40, and 20/32 for version 0 — see
+    `segwitEncode_some`), `SegwitDecode` with the same hrp accepts that string and returns the same
+    version and program. Bech32 is used for version 0 and Bech32m for versions 1..16 on both sides. -/
+theorem segwit_decode_encode (hrp prog s : Bytes) (v : Nat) (hne : hrp ≠ [])
+    (h : segwitEncode hrp v prog = some s) : segwitDecode hrp s = .ok (v, prog) :=
+  Bech32.segwit_decode_encode hrp prog s v hne h
+
+/-- non-vacuity: a version-1 (taproot-style) 32-byte program on "bc" is encoded -/
+example : (segwitEncode [98, 99] 1 (List.replicate 32 7)).isSome = true := by decide +kernel
+
+/-- Bech32 / Bech32m decode then encode, for EVERY input string (any case): whatever `bech32.Decode`
+    accepts as (hrp, data, variant), `bech32.Encode` of that triple succeeds and gives the input with
+    ASCII upper-case letters lower-cased. Hence an accepted string is determined, up to case, by what it
+    decodes to: a string with a wrong checksum, an invalid character or the other checksum variant cannot
+    decode to the same triple. (The proof uses the converse of the checksum lemma: the six checksum symbols
+    are the ONLY six symbols that bring the generated polymod to the final constant.) -/
+theorem bech32_encode_decode (s hrp data : Bytes) (m : Bool) (h : Bech32.decode s = some (hrp, data, m)) :
+    Bech32.encode hrp data m = some (s.map Addr.asciiLower) :=
+  Bech32.encode_decode s hrp data m h
+
+/-- non-vacuity: the upper-case BIP173 vector "A12UEL5L" is accepted (and decodes to hrp "a", no data) -/
+example : Bech32.decode [65, 49, 50, 85, 69, 76, 53, 76] = some ([97], [], false) := by decide +kernel
+
+/-- the same for an input without upper-case letters (what wallets produce): re-encoding gives exactly
+    the input -/
+theorem bech32_encode_decode_lower (s hrp data : Bytes) (m : Bool) (hlow : ∀ c ∈ s, isUpper c = false)
+    (h : Bech32.decode s = some (hrp, data, m)) : Bech32.encode hrp data m = some s :=
+  Bech32.encode_decode_lower s hrp data m hlow h
+
+/-- non-vacuity: "a12uel5l" has no upper-case letter and is accepted -/
+example : (∀ c ∈ ([97, 49, 50, 117, 101, 108, 53, 108] : Bytes), isUpper c = false) ∧
+    Bech32.decode [97, 49, 50, 117, 101, 108, 53, 108] = some ([97], [], false) := by decide +kernel
+
+/-- the padding rules make 5→8 regrouping lossless: if a string of 5-bit symbols regroups to bytes `w`
+    without padding (fewer than 5 left-over bits, all zero — the two tests of `convert_bits(..., false)`),
+    then regrouping `w` back with padding returns the same symbols -/
+theorem convertBits_roundtrip_rev (d w : Bytes) (hd : ∀ x ∈ d, x.toNat < 2 ^ 5)
+    (h : convertBits 8 d 5 false = some w) : convertBits 5 w 8 true = some d :=
+  Bech32.convertBits_58_inv d w hd h
+
+/-- non-vacuity of `convertBits_roundtrip_rev` -/
+example : (∀ x ∈ ([31, 28, 0, 8, 2] : Bytes), x.toNat < 2 ^ 5) ∧
+    convertBits 8 [31, 28, 0, 8, 2] 5 false = some [0xff, 0x00, 0x81] := by decide +kernel
+
+/-- `segwitDecode_sound` strengthened to "decode then re-encode" (the property's "decoding and re-encoding an
+    accepted address yields the same string up to Bech32 case"), for EVERY hrp and EVERY input string: if
+    `SegwitDecode hrp s` accepts with version `v` and program `prog`, then `SegwitEncode hrp v prog`
+    succeeds and returns `s` with ASCII upper-case letters lower-cased. Consequently any two accepted
+    strings denoting the same (version, program) are equal up to case, and a string that is refused by
+    the checksum / variant / padding / length rules is never the encoding of anything. -/
+theorem segwit_encode_decode (hrp s prog : Bytes) (v : Nat)
+    (h : segwitDecode hrp s = .ok (v, prog)) : segwitEncode hrp v prog = some (s.map Addr.asciiLower) :=
+  Bech32.segwit_encode_decode hrp s prog v h
+
+/-- non-vacuity: the upper-case BIP173 vector BC1QW508D6QEJXTDG4Y5R3ZARVARY0C5XW7KV8F3T4 is accepted -/
+example : (segwitDecode [98, 99] [66, 67, 49, 81, 87, 53, 48, 56, 68, 54, 81, 69, 74, 88, 84, 68, 71, 52, 89, 53, 82, 51, 90, 65, 82, 86, 65, 82, 89, 48, 67, 53, 88, 87, 55, 75, 86, 56, 70, 51, 84, 52]).toOption.isSome = true := by
+  decide +kernel
+
+/-- `Encodeb58` never writes outside its buffer: the Go code allocates len(a)*138/100+1 bytes and fills
+    them from the end; the encoding of EVERY byte string fits (256^100 < 58^138, plus the 100 residues). -/
+theorem b58_encode_fits (a : Bytes) : (Base58.encode a).length ≤ a.length * 138 / 100 + 1 :=
+  Base58.encode_length_le a
 
 end GocoinV.Props.C15
